@@ -1200,32 +1200,38 @@ impl<'a> TLVSequenceTLVIter<'a> {
     }
 
     fn try_next(&mut self) -> Result<Option<TLV<'a>>, Error> {
-        let current = self.seq.current()?;
-        if current.is_empty() {
+        if self.seq.0.is_empty() {
             return Ok(None);
         }
 
-        self.advance()?;
+        let control = self.seq.control()?;
 
-        Ok(Some(TLV::new(current.tag()?, current.value()?)))
-    }
+        if control.is_container_end() {
+            control.confirm_container_end()?;
 
-    fn advance(&mut self) -> Result<(), Error> {
-        if self.nesting > 0 || !self.seq.0.is_empty() && !self.seq.control()?.is_container_end() {
+            if self.nesting == 0 {
+                // The end marker of the container enclosing the sequence (or a stray one):
+                // it is not part of the sequence, the iteration is over
+                return Ok(None);
+            }
+
+            // The end marker of a container entered earlier: leave that container
+            self.nesting -= 1;
             self.seq = self.seq.next_enter()?;
 
-            let control = self.seq.control()?;
-
-            if control.is_container_start() {
-                self.nesting += 1;
-            } else if control.is_container_end() && self.nesting > 0 {
-                // At nesting 0 this is the end marker of the container enclosing the
-                // sequence (or a stray one): it ends the iteration, there is nothing to leave
-                self.nesting -= 1;
-            }
+            return Ok(Some(TLV::end_container()));
         }
 
-        Ok(())
+        let current = TLVElement::new(self.seq.0);
+
+        if control.is_container_start() {
+            // The elements of the container follow, up to its end marker
+            self.nesting += 1;
+        }
+
+        self.seq = self.seq.next_enter()?;
+
+        Ok(Some(TLV::new(current.tag()?, current.value()?)))
     }
 }
 
